@@ -32,6 +32,25 @@ def check(run):
     for pre in ('A:X:', 'A:X:C;', 'S "abc', 'K #14ab', 'K #2', 'U? #H', 'U? 1E', 'U? 1.', 'C ' + '1' * 30, 'C ' + 'A' * 30):
         go(f'parse T1 root, {pre!r} + 3 symbolic bytes', PARSE + ({'device': 'T1', 'L': 3, 'prefix': pre, 'prefixes': False},), 600)
     bounds['structured_prefixes'] = 'parameter lists of 1..15 entries, deep headers, open strings / blocks / radix and exponent prefixes, 30-character numerals and character data, each followed by 2..3 symbolic bytes'
+    # argument conversion (reached only after parsing and dispatch succeed): every typed handler of device TY with a region of symbolic
+    # bytes (all 256 values) -- only crashes and hangs count here, the delivered values are C03's subject
+    ARG = ('mirsym.checks.arg_level', 'ArgCheck')
+    for h in ('PU8', 'PI8', 'PU16', 'PI32', 'PU64', 'PI64', 'PIS', 'PF32', 'PF64', 'PBO', 'PST', 'PBL'):
+        for L in ((3, 4) if thorough else (3,)):
+            st = run.explore(f'run TY {h} <{L} symbolic bytes, all 256 values> LF (crash / hang monitor)', ARG + ({'handler': h, 'L': L},), 1200 if thorough else 300)
+            for r in st['records']:
+                r['violations'] = [v for v in r.get('violations', []) if v['rule'] in ('PANIC', 'HANG', 'STEPLIMIT')]
+                for v in r['violations']:
+                    v.update(entry='run', cap=256)
+                records.append(r)
+    for h, pre in (('PU8', '1E'), ('PU64', '1E1'), ('PI16', '-1E'), ('PU8', '0E9'), ('PF32', '1E3'), ('PU8', '#H'), ('PU64', '#B' + '1' * 63)):
+        st = run.explore(f'run TY {h} {pre}<2 symbolic bytes> LF (crash / hang monitor)', ARG + ({'handler': h, 'L': 2, 'prefix': pre},), 300)
+        for r in st['records']:
+            r['violations'] = [v for v in r.get('violations', []) if v['rule'] in ('PANIC', 'HANG', 'STEPLIMIT')]
+            for v in r['violations']:
+                v.update(entry='run', cap=256)
+            records.append(r)
+    bounds['argument_conversion'] = '12 typed handlers of TY, 3 (4) symbolic bytes; exponent / radix prefixes + 2 symbolic bytes'
     # (b) run with response buffers of every small capacity, free-form input over the class alphabet
     for cap in range(0, 5):
         for L in range(1, (5 if thorough else 4) + 1):
